@@ -556,7 +556,8 @@ impl AggregateState {
                     Value::Null
                 } else {
                     let mut sorted = values.clone();
-                    sorted.sort_by(|a, b| a.partial_cmp(b).unwrap_or(std::cmp::Ordering::Equal));
+                    // total_cmp is a total order (NaN last): sort_by panics on an inconsistent comparator
+                    sorted.sort_by(f64::total_cmp);
                     // Index calculation per SQL standard: floor(p * (n - 1))
                     let index = (percentile * (sorted.len() - 1) as f64).floor() as usize;
                     Value::Float64(sorted[index])
@@ -568,7 +569,8 @@ impl AggregateState {
                     Value::Null
                 } else {
                     let mut sorted = values.clone();
-                    sorted.sort_by(|a, b| a.partial_cmp(b).unwrap_or(std::cmp::Ordering::Equal));
+                    // total_cmp is a total order (NaN last): sort_by panics on an inconsistent comparator
+                    sorted.sort_by(f64::total_cmp);
                     // Linear interpolation per SQL standard
                     let rank = percentile * (sorted.len() - 1) as f64;
                     let lower_idx = rank.floor() as usize;
